@@ -7,5 +7,4 @@ Check (C17_no_ub : forall (msgs : list (list byte)) (cs : list item),
 Check (C17_slices_inside : forall msg (r : reader) (mk : marker) off bs,
   cwf msg (r_cur r) -> rd_bytes_at msg mk r = Ok (OBytes off bs) ->
   off + lenN bs <= lenN msg /\ bs = subN msg off (lenN bs)).
-Print Assumptions C17_no_ub.
-Print Assumptions C17_slices_inside.
+Print Assumptions C17_no_ub. Print Assumptions C17_slices_inside.
